@@ -310,6 +310,16 @@ func (fc *FuncCtx) callByContract(fr *Frame, st *State, callee *ssa.Function, c 
 			}
 			env.vars[names[i]] = SVal{T: a.T, Typ: pt}
 		}
+		if i < len(names) && a.T == nil && a.Tup != nil && i < len(ptypes) && ptypes[i] != nil {
+			// struct value argument (snapshot of the scalar fields): <param>_<Field>
+			if sty, ok := ptypes[i].Underlying().(*types.Struct); ok && sty.NumFields() == len(a.Tup) {
+				for k, fv := range a.Tup {
+					if fv.T != nil {
+						env.vars[names[i]+"_"+sty.Field(k).Name()] = SVal{T: fv.T, Typ: sty.Field(k).Type()}
+					}
+				}
+			}
+		}
 	}
 	site := name
 	for _, rq := range c.Requires {
